@@ -1,24 +1,21 @@
 #!/bin/sh
 # seed_eval.sh <seed-id> <property> [more properties...]: confirm a seeded change and run the checks against it.
 # 1. in the scratch worktree /tmp/seed_<id>: demo fails with the change, passes without; test suite still 79 passed
-# 2. copy patch+demo to /verif/seeded/<id>/; 3. apply to /repo, run ./check <prop>, revert.
+# 2. copy patch+demo to /verif/seeded/<id>/ with a provisional meta.json; 3. tools/seed_regress.py <id> (scratch copy of /repo, /repo untouched)
 id=$1; shift
 wt=/tmp/seed_$id
 [ -f $wt/patch.diff ] || { echo "no patch"; exit 2; }
 mkdir -p /verif/seeded/$id
 cp $wt/patch.diff /verif/seeded/$id/patch.diff; cp $wt/demo.py /verif/seeded/$id/demo.py
 cd $wt
-/verif/.venv312/bin/python demo.py >/tmp/seed_demo_with.txt 2>&1; with=$?
-git apply -R patch.diff; /verif/.venv312/bin/python demo.py >/tmp/seed_demo_without.txt 2>&1; without=$?; git apply patch.diff
+/verif/.venv312/bin/python demo.py >/tmp/seed_demo_with_$id.txt 2>&1; with=$?
+git apply -R patch.diff; /verif/.venv312/bin/python demo.py >/tmp/seed_demo_without_$id.txt 2>&1; without=$?; git apply patch.diff
 tests=$(/venv/bin/python -m pytest -q -p no:cacheprovider --timeout=900 --continue-on-collection-errors 2>&1 | tail -1)
 echo "demo with change: exit $with; without: exit $without; tests: $tests"
 cd /verif
-git -C /repo apply $wt/patch.diff || { echo "patch does not apply to /repo"; exit 2; }
-for p in "$@"; do
-  ./check $p > /tmp/seed_check_$p.txt 2>&1; rc=$?
-  echo "check $p: exit $rc"; grep -E "^(VIOLATION|KNOWN|UNDECIDED|CHECKER|C[0-9]+:)" /tmp/seed_check_$p.txt | cut -c1-220 | head -8
-  mkdir -p /verif/seeded/$id/replays_$p; cp -r replays/$p/. /verif/seeded/$id/replays_$p/ 2>/dev/null
-  find /verif/seeded/$id/replays_$p -size +200k -delete
-done
-git -C /repo checkout -- .
-git -C /repo status --short | head -3
+[ -f seeded/$id/meta.json ] || python3 - "$id" "$@" <<'PY'
+import json, sys
+i, props = sys.argv[1], sys.argv[2:]
+json.dump({'property': props[0], 'checks': props, 'change': 'TODO', 'needs': 'TODO', 'detected_by': []}, open('/verif/seeded/%s/meta.json' % i, 'w'), indent=1)
+PY
+tools/seed_regress.py $id 2>&1 | grep -v conda | cut -c1-1500
